@@ -160,6 +160,55 @@ func init() {
 					}
 					prev = ids
 				}
+				// fork: two further tokens derived from the final token must not disturb it or each other
+				final := toks[len(toks)-1]
+				if !strings.ContainsRune(hist, 'S') {
+					mkChild := func(tag byte) (*biscuit.Biscuit, error) {
+						bb := final.CreateBlock()
+						if err := hx.FillBlock(bb, c17Contents[tag]); err != nil {
+							return nil, err
+						}
+						return final.Append(hx.NewRNG(seedOf(hist+"|fork"+string(tag))), bb.Build())
+					}
+					a, err := mkChild('P')
+					if err != nil {
+						w.Violate("C17:fork-failed", hist, err.Error(), "a token")
+						return
+					}
+					idsA := a.RevocationIds()
+					serA, _ := a.Serialize()
+					b, err := mkChild('Q')
+					if err != nil {
+						w.Violate("C17:fork-failed", hist, err.Error(), "a token")
+						return
+					}
+					w.Stats().Transitions += 2
+					after := a.RevocationIds()
+					serA2, _ := a.Serialize()
+					same := len(after) == len(idsA) && bytes.Equal(serA, serA2)
+					for k := range idsA {
+						if same && !bytes.Equal(idsA[k], after[k]) {
+							same = false
+						}
+					}
+					if !same {
+						w.Class("sibling-disturbed")
+						w.Violate("C17:sibling-derivation-changes-ids", hist+" then Append(P) -> a, Append(Q) -> b on the same parent", fmt.Sprintf("ids of a after b was created: %x", after), fmt.Sprintf("%x", idsA))
+						return
+					}
+					idsB := b.RevocationIds()
+					if len(idsB) != len(idsA) || bytes.Equal(idsA[len(idsA)-1], idsB[len(idsB)-1]) {
+						w.Class("siblings-share-id")
+						w.Violate("C17:siblings-share-an-id", hist+" forked", fmt.Sprintf("%x / %x", idsA[len(idsA)-1], idsB[len(idsB)-1]), "distinct identifiers")
+						return
+					}
+					for k := range prev {
+						if !bytes.Equal(prev[k], idsA[k]) || !bytes.Equal(prev[k], idsB[k]) || !bytes.Equal(prev[k], final.RevocationIds()[k]) {
+							w.Violate("C17:parent-ids-not-a-prefix-after-fork", hist+" forked", "changed", "unchanged")
+							return
+						}
+					}
+				}
 				mu.Lock()
 				for j, id := range prev {
 					if o, ok := owner[string(id)]; ok && o != signers[j] {
